@@ -37,15 +37,65 @@ def to_waitn(wait_s: float, tick: float, tpp_num: int):
     return int(n), off
 
 
-def run_impl(cfg: dict, arrivals, tick: float, base: float = 1000.0):
+def run_impl(cfg: dict, arrivals, tick: float, base: float = 1000.0, reads: bool = False, rng=None):
     clock = FakeTime(base)
     lim = real_limiter(cfg["tppNum"] / cfg["tppDen"], cfg["period"] * tick, cfg["init"], clock)
     steps = []
     for at in arrivals:
         clock.t = base + at * tick
+        tokens = -1
+        if reads and rng is not None and rng.random() < 0.5:
+            tokens = lim.tokens                     # looking at the pool must not change it
+            _ = lim.tokens_per_period, lim.period_duration
         w = lim.consume()
         n, off = to_waitn(w, tick, cfg["tppNum"])
-        steps.append({"at": at, "waitN": n, "offgrid": off, "raw": w})
+        steps.append({"at": at, "waitN": n, "offgrid": off, "raw": w, "cancelled": False, "tokens": tokens})
+    return steps
+
+
+def run_impl_wait(cfg: dict, arrivals, tick: float, base: float = 1000.0):
+    """Callers use `await limiter.wait()` under a virtual-time loop; some are cancelled while they sleep, some look at
+    `limiter.tokens` first.  arrivals: [{at, cancel_after (ticks, or None), read}].  The send time of a caller is when its
+    wait() returned."""
+    import asyncio
+    from . import vloop
+    import basana.core.token_bucket as tbm
+    steps = [None] * len(arrivals)
+
+    async def scenario(loop):
+        clock = type("T", (), {"time": staticmethod(lambda: base + loop.time())})
+        saved = tbm.time
+        tbm.time = clock
+        try:
+            lim = tbm.TokenBucketLimiter(cfg["tppNum"] / cfg["tppDen"], cfg["period"] * tick, cfg["init"])
+            tasks = []
+
+            async def caller(i, a):
+                tokens = lim.tokens if a.get("read") else -1
+                t0 = loop.time()
+                try:
+                    await lim.wait()
+                except asyncio.CancelledError:
+                    steps[i] = {"at": a["at"], "waitN": 0, "offgrid": False, "cancelled": True, "tokens": tokens, "raw": -1.0}
+                    raise
+                n, off = to_waitn(loop.time() - t0, tick, cfg["tppNum"])
+                steps[i] = {"at": a["at"], "waitN": n, "offgrid": off, "cancelled": False, "tokens": tokens, "raw": loop.time() - t0}
+
+            async def canceller(task, when):
+                await vloop.sleep_until(loop, when)
+                if not task.done():
+                    task.cancel()
+            for i, a in enumerate(arrivals):
+                await vloop.sleep_until(loop, a["at"] * tick)
+                t = asyncio.ensure_future(caller(i, a))
+                await asyncio.sleep(0)                    # the caller runs up to its sleep: arrival order = call order
+                tasks.append(t)
+                if a.get("cancel_after") is not None:
+                    tasks.append(asyncio.ensure_future(canceller(t, (a["at"] + a["cancel_after"]) * tick)))
+            await asyncio.gather(*tasks, return_exceptions=True)
+        finally:
+            tbm.time = saved
+    vloop.run(scenario)
     return steps
 
 
@@ -188,7 +238,13 @@ def gen_traces(rng: random.Random, n: int):
             else:
                 at += rng.choice([0, 0, 1, 2, 3, 30])
             arrivals.append(at)
-        steps = run_impl(cfg, arrivals, tick)
+        if i % 4 == 3:
+            # callers await wait(); a third of those that have to sleep are cancelled mid-sleep, some read `tokens` first
+            arr = [{"at": a, "cancel_after": rng.choice([0, 1, 2]) if rng.random() < 0.3 else None, "read": rng.random() < 0.4}
+                   for a in arrivals]
+            steps = run_impl_wait(cfg, arr, tick)
+        else:
+            steps = run_impl(cfg, arrivals, tick, reads=rng.random() < 0.5, rng=rng)
         traces.append(dict(cfg, id=i + 1, tick=tick, steps=steps))
     return traces
 
@@ -198,7 +254,8 @@ def validate(traces, wd, rep):
     with open(path, "w") as f:
         for tr in traces:
             f.write(json.dumps({k: tr[k] for k in ("id", "tppNum", "tppDen", "period", "init")}
-                               | {"steps": [{"at": s["at"], "waitN": s["waitN"], "offgrid": s["offgrid"]} for s in tr["steps"]]}) + "\n")
+                               | {"steps": [{"at": s["at"], "waitN": s["waitN"], "offgrid": s["offgrid"], "cancelled": bool(s.get("cancelled")),
+                                            "tokens": int(s.get("tokens", -1))} for s in tr["steps"]]}) + "\n")
     res = tlc.run("TokenBucketTrace", tlc.cfg_text(postcondition="AllConsumed"), workdir=wd, mode="trace",
                   env={"TRACE_FILE": path})
     if not res.ok:
